@@ -611,3 +611,29 @@ Section NoRemovableNode.
     destruct I as [H1 [H2 H3]]. unfold tree_of. apply close_all_ok; [|exact H2]. apply flush_ok; assumption.
   Qed.
 End NoRemovableNode.
+
+(* ------------------------------------------------------------------ no depth cap *)
+Lemma html_open_all remove void (tags : list str) : forall st : sk hvis,
+  depth st = 0 -> forallb (fun t => negb (mem_str t remove) && negb (mem_str t void)) tags = true ->
+  let st' := run remove void (h_start void) h_end h_data st (map (fun t => Start t []) tags) in
+  depth st' = 0 /\ List.length (below (vis st')) = List.length (below (vis st)) + List.length tags.
+Proof.
+  induction tags as [|t tags IH]; intros st Hd H.
+  - cbn. split; [exact Hd | lia].
+  - cbn [forallb] in H. apply andb_true_iff in H as [Ht H]. apply andb_true_iff in Ht as [Hr Hv].
+    apply negb_true_iff in Hr, Hv.
+    cbn [map]. rewrite run_cons.
+    destruct st as [v d tg]. cbn [depth] in Hd. subst d. cbn [step depth vis stag]. rewrite Hr.
+    specialize (IH (mkSk (h_start void v t []) 0 tg) eq_refl H). cbn zeta in IH |- *.
+    destruct IH as [I1 I2]. split; [exact I1|]. rewrite I2. unfold h_start. rewrite Hv. cbn [vis below List.length]. lia.
+Qed.
+
+Lemma html_no_depth_cap remove void (tags : list str) :
+  forallb (fun t => negb (mem_str t remove) && negb (mem_str t void)) tags = true ->
+  List.length (below (vis (html_build remove void (map (fun t => Start t []) tags)))) = List.length tags
+  /\ skipping (html_build remove void (map (fun t => Start t []) tags)) = false.
+Proof.
+  intro H. unfold html_build.
+  destruct (html_open_all remove void tags h_init eq_refl H) as [H1 H2]. cbn zeta in H1, H2.
+  split; [rewrite H2; reflexivity | unfold skipping; rewrite H1; reflexivity].
+Qed.
